@@ -387,7 +387,22 @@ Path_drw = path_type("drw", docstring="path to a directory that exists and is re
 
 register_type(os.PathLike, str, str)
 register_type(complex)
-register_type_on_first_use("decimal.Decimal", float)
+
+
+def decimal_deserializer(value):
+    from decimal import Decimal, InvalidOperation
+
+    if isinstance(value, bool):
+        raise ValueError(f"Expected a number but got {value!r}")
+    if isinstance(value, float):
+        value = repr(value)  # the decimal literal that was written, not the binary expansion of the float
+    try:
+        return Decimal(value)
+    except InvalidOperation as ex:
+        raise ValueError(f"Invalid decimal number: {value!r}") from ex
+
+
+register_type_on_first_use("decimal.Decimal", float, decimal_deserializer)
 register_type_on_first_use("uuid.UUID")
 
 for _path in [pathlib.Path, pathlib.PosixPath, pathlib.WindowsPath]:
